@@ -132,6 +132,10 @@ def is_same_labeling(labeled0, labeled1):
     '''
     labeled0 = _convert_labeled(labeled0)
     labeled1 = _convert_labeled(labeled1)
+    if labeled0.shape != labeled1.shape:
+        # maps of different shapes are never the same labeling (and the native
+        # code reads both arrays with the size of the first)
+        return False
     return _labeled.is_same_labeling(labeled0, labeled1)
 
 
